@@ -306,19 +306,18 @@ async def _assert_preconditions_async(
     preconditions: List[List[Contract]], resolved_kwargs: Mapping[str, Any]
 ) -> Optional[BaseException]:
     """Assert that the preconditions of an async function hold."""
-    exception = None  # type: Optional[BaseException]
-
     # Assert the preconditions in groups. This is necessary to implement "require else" logic when a class
     # weakens the preconditions of its base class.
+    #
+    # The error is created only once it is certain that no group holds: the error of a group which is overruled
+    # by a later group is never raised, and creating it (*i.e.*, calling its error function, representing the values)
+    # might even fail for the arguments which only the later group accepts.
+    violated = None  # type: Optional[Contract]
 
     for group in preconditions:
-        exception = None
+        violated = None
 
         for contract in group:
-            assert (
-                exception is None
-            ), "No exception as long as pre-condition group is satisfiable."
-
             condition_kwargs = select_condition_kwargs(
                 contract=contract, resolved_kwargs=resolved_kwargs
             )
@@ -333,16 +332,17 @@ async def _assert_preconditions_async(
                     check = check_or_coroutine
 
             if not_check(check=check, contract=contract):
-                exception = _create_violation_error(
-                    contract=contract, resolved_kwargs=resolved_kwargs
-                )
+                violated = contract
                 break
 
         # The group of preconditions was satisfied, no need to check the other groups.
-        if exception is None:
+        if violated is None:
             break
 
-    return exception
+    if violated is None:
+        return None
+
+    return _create_violation_error(contract=violated, resolved_kwargs=resolved_kwargs)
 
 
 def _assert_preconditions(
@@ -351,19 +351,18 @@ def _assert_preconditions(
     func: CallableT,
 ) -> Optional[BaseException]:
     """Assert that the preconditions of a sync function hold."""
-    exception = None  # type: Optional[BaseException]
-
     # Assert the preconditions in groups. This is necessary to implement "require else" logic when a class
     # weakens the preconditions of its base class.
+    #
+    # The error is created only once it is certain that no group holds: the error of a group which is overruled
+    # by a later group is never raised, and creating it (*i.e.*, calling its error function, representing the values)
+    # might even fail for the arguments which only the later group accepts.
+    violated = None  # type: Optional[Contract]
 
     for group in preconditions:
-        exception = None
+        violated = None
 
         for contract in group:
-            assert (
-                exception is None
-            ), "No exception as long as pre-condition group is satisfiable."
-
             condition_kwargs = select_condition_kwargs(
                 contract=contract, resolved_kwargs=resolved_kwargs
             )
@@ -385,16 +384,17 @@ def _assert_preconditions(
                 )
 
             if not_check(check=check, contract=contract):
-                exception = _create_violation_error(
-                    contract=contract, resolved_kwargs=resolved_kwargs
-                )
+                violated = contract
                 break
 
         # The group of preconditions was satisfied, no need to check the other groups.
-        if exception is None:
+        if violated is None:
             break
 
-    return exception
+    if violated is None:
+        return None
+
+    return _create_violation_error(contract=violated, resolved_kwargs=resolved_kwargs)
 
 
 async def _capture_old_async(
